@@ -246,6 +246,16 @@ var c11Pairs = []c11Pair{
 			budget -= 4 + l
 			w.Messages = append(w.Messages, core.MessageWriter{Type: types[r.Intn(len(types))], Data: r.Bytes(l)})
 		}
+		if ver == 1 && r.Chance(1, 12) {
+			// a version 1 message at the upper edge of its 16-bit size field, in front of or
+			// between the others
+			big := core.MessageWriter{Type: core.MsgAttribute, Data: r.Bytes([]int{65512, 65520, 65528, 65529, 65530, 65532, 65535}[r.Intn(7)])}
+			at := r.Intn(len(w.Messages) + 1)
+			if at == len(w.Messages) && len(w.Messages) > 0 && r.Bool() {
+				at = 0
+			}
+			w.Messages = append(w.Messages[:at], append([]core.MessageWriter{big}, w.Messages[at:]...)...)
+		}
 		if ver == 2 && r.Chance(1, 6) { // fill the 255-byte chunk exactly
 			used := 0
 			for _, m := range w.Messages {
